@@ -522,14 +522,29 @@ func (f *Frame) evalBinary(e *spec.Binary, st, old *State) TV {
 	B := x.B
 	boolT := types.Typ[types.Bool]
 	switch e.Op {
-	case "==>":
-		return TV{B.Implies(f.evalBool(e.X, st, old), f.evalBool(e.Y, st, old)), boolT}
+	case "==>", "&&", "||":
+		// short-circuit when the left operand is decided by the path condition: the right operand
+		// may not be evaluable then (p != nil && p.f() ...)
+		l := f.evalBool(e.X, st, old)
+		ls := x.simplifyUnder(st.PC, l)
+		switch {
+		case e.Op == "==>" && ls.IsFalse():
+			return TV{B.True(), boolT}
+		case e.Op == "&&" && ls.IsFalse():
+			return TV{B.False(), boolT}
+		case e.Op == "||" && ls.IsTrue():
+			return TV{B.True(), boolT}
+		}
+		r := f.evalBool(e.Y, st, old)
+		switch e.Op {
+		case "==>":
+			return TV{B.Implies(l, r), boolT}
+		case "&&":
+			return TV{B.And(l, r), boolT}
+		}
+		return TV{B.Or(l, r), boolT}
 	case "<==>":
 		return TV{B.Eq(f.evalBool(e.X, st, old), f.evalBool(e.Y, st, old)), boolT}
-	case "&&":
-		return TV{B.And(f.evalBool(e.X, st, old), f.evalBool(e.Y, st, old)), boolT}
-	case "||":
-		return TV{B.Or(f.evalBool(e.X, st, old), f.evalBool(e.Y, st, old)), boolT}
 	}
 	a := f.eval(e.X, st, old)
 	b := f.eval(e.Y, st, old)
@@ -976,6 +991,16 @@ func (f *Frame) callPure(fn *ssa.Function, clo *Closure, args []Value, st *State
 	res := nf.run(s2, args)
 	x.depth--
 	rt := fn.Signature.Results()
+	if len(res.Results) < rt.Len() {
+		// no feasible return under the current path condition (e.g. a nil receiver): the call
+		// cannot be evaluated here and its value is irrelevant (anything follows from the
+		// contradiction); use unconstrained values
+		var rs []Value
+		for i := 0; i < rt.Len(); i++ {
+			rs = append(rs, x.freshValue("dead_"+fn.Name(), rt.At(i).Type()))
+		}
+		res.Results = rs
+	}
 	if rt.Len() == 1 {
 		return TV{res.Results[0], rt.At(0).Type()}
 	}
